@@ -66,6 +66,23 @@ class C13Executor(SymListMixin, ET.ETreeMixin, Executor):
     def join_term(self, sep, s):
         return VStr(JOIN(sep.t, s))
 
+    def dataclass_fields(self, name):
+        """dataclasses imported from data_types.py are constructed like local ones"""
+        r = super().dataclass_fields(name)
+        if r is not None or name in self.module.classes:
+            return r
+        origin = self.module.imports.get(name, "")
+        if origin.startswith("sharepoint2text."):
+            rel = "/".join(origin.split(".")[:-1]) + ".py"
+            try:
+                m = loader.module(rel, self.module.repo)
+            except OSError:
+                return None
+            cls = m.classes.get(name)
+            if cls is not None and any("dataclass" in ast.unparse(d) for d in cls.decorator_list):
+                return [(b.target.id, b.value) for b in cls.body if isinstance(b, ast.AnnAssign) and isinstance(b.target, ast.Name)]
+        return None
+
     def b_isinstance(self, st, args, kwargs, node):
         v, t = args
         if isinstance(v, VExt) and v.sort in PYCLASS:
